@@ -1058,7 +1058,7 @@ def i_bytes_equal(ex, st, g, args, pos):
     return lift_str(ex, st, args[:2], s_eq)
 
 
-@intr('strings.NewReader', 'bytes.NewReader', 'bytes.NewBufferString', 'bytes.NewBuffer', 'bufio.NewReader')
+@intr('strings.NewReader', 'bytes.NewReader', 'bytes.NewBufferString', 'bytes.NewBuffer', 'bufio.NewReader', 'bufio.NewReaderSize')
 def i_newreader(ex, st, g, args, pos):
     a = args[0]
     if isinstance(a, Ptr):   # bufio.NewReader(reader)
